@@ -123,13 +123,21 @@ def handleBuild (op : String) (args : List String) : Option String :=
     some <| match t.toInt? with
     | some n => (match gmtime n with | .ok dt => "ok\t" ++ dt.text | .error e => bErr e)
     | none => "bad-arg"
+  | "brunpartial", _di :: ops =>
+    -- a writer sequence that was cut short (no RECORD yet): ok / err of the guarded writers only
+    some <| match ops.mapM parseOp with
+    | none => "bad-arg"
+    | some os => (match runC {} os with | .ok s => "ok\t" ++ toString s.members.length | .error e => bErr e)
   | "brun", di :: ops =>
     some <| match ops.mapM parseOp with
     | none => "bad-arg"
     | some os =>
-      let s := writeRecord noHash di (run {} os)
-      "ok\t" ++ boolStr (decide (DistinctTargets di os)) ++ "\t" ++ encode (recordText di (run {} os).records) ++ "\t" ++
-        joinWith "\t" (s.members.map (encode ∘ showMember))
+      -- the guarded writers: a name that is already in the archive aborts the sequence (`err runtime`)
+      match (match runC {} os with | .ok s0 => writeRecordC noHash di s0 | .error e => .error e) with
+      | .error e => bErr e
+      | .ok s =>
+        "ok\t" ++ boolStr (decide (DistinctTargets di os)) ++ "\t" ++ encode (recordText di (run {} os).records) ++ "\t" ++
+          joinWith "\t" (s.members.map (encode ∘ showMember))
   | "bwheel", ed :: root :: modName :: pthD :: pthN :: diSrc :: di :: df :: isSet :: sde :: items =>
     some <| match items.mapM parseItem, pthN.toNat? with
     | some its, some pn =>
@@ -141,7 +149,7 @@ def handleBuild (op : String) (args : List String) : Option String :=
         diSource := pathKey diSrc,
         diFiles := its.filterMap (fun | .d x => some x | _ => none),
         distInfo := di, dataFolder := df }
-      match describeWheel noHash (sdeArg isSet sde) p with
+      match describeWheelC noHash (sdeArg isSet sde) p with
       | .error e => bErr e
       | .ok es =>
         let dt := match es with | e :: _ => e.dateTime.text | [] => ""
